@@ -410,7 +410,9 @@ EX_Unknown(q) == q.decl = "none" \/ (q.strat = "nothing" /\ Len(BroadcastShape(B
 -----------------------------------------------------------------------------
 (* materialize: _materialize_reshape_shape.py   Reshape(data, <dynamic shape>) with a known output shape *)
 MR_Targets(ds) == IF Numel(ds) = 6 THEN {<<6>>, <<2, 3>>, <<3, 2>>, <<-1, 2>>, <<0, 3>>, <<1, 2, 3>>, <<1, 6>>}
-                  ELSE {<<0, 3>>, <<3, 0>>, <<0>>, <<2, 0>>, <<1, 0>>}
+                  \* (session 6: -1 targets on empty data - the inferred dim is 0 at a position where the INPUT's dim is not 0, so
+                  \*  the materialised 0 means "zero" only under allowzero = 1; seeded C05-m13)
+                  ELSE {<<0, 3>>, <<3, 0>>, <<0>>, <<2, 0>>, <<1, 0>>, <<3, -1>>, <<-1, 2>>, <<1, -1>>}
 MR_Masks(n) == {m \in [1..n -> BOOLEAN] : Cardinality({i \in 1..n : m[i]}) <= 2}
 MR_AllParams ==
    UNION {{[ds |-> ds, tg |-> tg, az |-> az, mask |-> m, ovi |-> TRUE, skind |-> "ginput", opset |-> os] :
